@@ -93,7 +93,7 @@ claim("C18", "loaders of every enum/flag representation provider are executed sy
                   "not proved injective.")
 
 claim("C15", "`_dedup` (the de-duplication used for union members and, typed, for literal arguments) proved for all sequences with "
-             "an inductive invariant (sound, complete, no duplicates w.r.t. the equality used); two further steps of the union normaliser, "
+             "an inductive invariant (sound, complete, no duplicates w.r.t. the equality used, first-occurrence order kept); two further steps of the union normaliser, "
              "`TypeNormalizer._unfold_union_args` (nested unions lifted, nothing lost or invented, identity incl. order when nothing is nested) and `_merge_literals` (non-literal members "
              "kept, no literal member survives unmerged, the list never grows, identity without a literal member), proved with loop invariants over symbolic lists; the canonical-form behaviour of "
              "normalize_type on live typing objects is decided by a bounded enumeration of meaning-preserving / meaning-changing "
